@@ -503,6 +503,25 @@ ADVERSARIAL_MESSAGES = [
     b'Content-Type: message/rfc822\r\n\r\nDate: nope\r\nFrom: <\r\nSender: a@b, c@d\r\n\r\nx',
 ]
 
+# a literal that two alternatives of the grammar can reach (the parser
+# backtracks over it): must draw one continuation request, not two
+BACKTRACK_LINES = [
+    b'k1 SEARCH RETURN (OR (SUBJECT {1}\r\nx y\r\n',
+    b'k2 SEARCH RETURN (OR (SUBJECT {1}\r\nx)) ALL\r\n',
+    b'k3 SEARCH RETURN (OR (SUBJECT {1}\r\nx ALL) ALL)\r\n',
+    b'k4 UID SEARCH RETURN (NOT (TO {2}\r\nab {1}\r\nc\r\n',
+    b'k5 APPEND INBOX X ({1}\r\na junk\r\n',
+    b'k6 APPEND INBOX X (a {1}\r\nb) {1}\r\nx\r\n',
+    b'k7 CREATE x (USE ({3}\r\nabc (\r\n',
+    b'k8 FETCH 1 BODY[HEADER.FIELDS ({1}\r\nx junk\r\n',
+    b'k9 FETCH 1 (BODY[HEADER.FIELDS ({1}\r\nx)] FLAGS) (CHANGEDSINCE {1}\r\n5)\r\n',
+    b'k10 SEARCH (SUBJECT {1}\r\nxy)\r\n',
+    b'k11 STORE 1 (UNCHANGEDSINCE ({1}\r\n5 x) FLAGS ()\r\n',
+    b'k12 SEARCH RETURN (OR (OR (SUBJECT {1}\r\nx FROM {1}\r\ny) ALL) ALL\r\n',
+    b'k13 SELECT x (OR (SUBJECT {1}\r\nx y\r\n',
+    b'k14 SEARCH RETURN (SUBJECT ({1}\r\nx) SUBJECT {1}\r\ny\r\n',
+]
+
 SIEVE_LINES = [
     b'NOOP\r\n', b'NOOP "tag"\r\n', b'NOOP {3+}\r\nabc\r\n', b'noop x\r\n', b'CAPABILITY\r\n', b'CAPABILITY x\r\n',
     b'STARTTLS\r\n', b'UNAUTHENTICATE\r\n', b'HAVESPACE "x" 5\r\n', b'HAVESPACE "x" ' + b'1' * 4301 + b'\r\n',
